@@ -7,7 +7,7 @@ NAME = 'c02_verify_sig'
 
 PARTS = HEAD + consts('LEAD_SIZE', 'INDEX_HEADER_SIZE', 'INDEX_ENTRY_SIZE', 'HEADER_MAGIC') + io_head() + header_types() + [
     Prelude('hdrspec.rs'),
-    Prelude('tags.rs'),
+] + tag_enums() + [
     Prelude('getters.rs'),
     Prelude('crypto.rs'),
     Prelude('alloc.rs'),
